@@ -515,6 +515,53 @@ func runC08(r *rt.Run, tier string) {
 				p.Values[f.Name] = f.Value
 				fs = append(fs, f)
 			}
+			switch t.Draw(3, "c08.build") {
+			case 1:
+				// built through Set, some keys set twice (the later value counts, the position stays)
+				q := control.Paragraph{Values: map[string]string{}}
+				for _, f := range fs {
+					if t.Bool(1, 3, "c08.set-twice") {
+						q.Set(f.Name, "provisional value")
+					}
+				}
+				for _, f := range fs {
+					q.Set(f.Name, f.Value)
+				}
+				if fmt.Sprint(q.Values) == fmt.Sprint(p.Values) && len(q.Order) == len(p.Order) {
+					// the order is that of first mention; re-derive the expectation from it
+					byName := map[string]c08Field{}
+					for _, f := range fs {
+						byName[f.Name] = f
+					}
+					fs = fs[:0]
+					for _, k := range q.Order {
+						fs = append(fs, byName[k])
+					}
+					p = q
+					r.Probe("paragraph-built-with-Set")
+				} else {
+					r.Violate("C08/paragraph-helpers", "Set", "Set(name, value) for %d distinct names gave Order %v Values %v", len(p.Order), q.Order, q.Values)
+				}
+			case 2:
+				// built as first-half.Update(second-half)
+				h := len(fs) / 2
+				a := control.Paragraph{Values: map[string]string{}}
+				b := control.Paragraph{Values: map[string]string{}}
+				for i, f := range fs {
+					if i < h {
+						a.Set(f.Name, f.Value)
+					} else {
+						b.Set(f.Name, f.Value)
+					}
+				}
+				u := a.Update(b)
+				if fmt.Sprint(u.Order) != fmt.Sprint(p.Order) || fmt.Sprint(u.Values) != fmt.Sprint(p.Values) {
+					r.Violate("C08/paragraph-helpers", "Update", "a.Update(b) of disjoint halves gave Order %v, want %v", u.Order, p.Order)
+				} else {
+					p = u
+					r.Probe("paragraph-built-with-Update")
+				}
+			}
 			paras = append(paras, p)
 			expect = append(expect, fs)
 		}
@@ -682,5 +729,5 @@ func init() {
 		},
 		Assumptions: []string{"values are compared after removing one trailing newline (the statement's equality) and, for values built with the library's leading-newline multi-line marker, the marker", "lines that are exactly '.', blanks around a first line, and field names with ':' or leading '#' are outside the text format and not generated"},
 	})
-	propProbes["C08"] = []string{"several-callers-writing-at-the-same-time", "stores-read-back-by-readers-alive-at-the-same-time", "line-longer-than-4096-bytes", "transient-read-fault-while-reading-back", "encode-retried-after-transient-write-error", "encoder-mixes-structs-and-slices", "single-line-with-trailing-newline", "multi-line-with-trailing-newline", "two-empty-lines", "three-empty-lines", "four-empty-lines", "leading-marker", "three-or-more-paragraphs", "three-or-more-cycles"}
+	propProbes["C08"] = []string{"paragraph-built-with-Set", "paragraph-built-with-Update", "several-callers-writing-at-the-same-time", "stores-read-back-by-readers-alive-at-the-same-time", "line-longer-than-4096-bytes", "transient-read-fault-while-reading-back", "encode-retried-after-transient-write-error", "encoder-mixes-structs-and-slices", "single-line-with-trailing-newline", "multi-line-with-trailing-newline", "two-empty-lines", "three-empty-lines", "four-empty-lines", "leading-marker", "three-or-more-paragraphs", "three-or-more-cycles"}
 }
